@@ -714,9 +714,12 @@ func (t *AHtree) DataAt(n uint64) ([]byte, error) {
 	pSize := binary.BigEndian.Uint32(b[offsetSize:])
 
 	p := make([]byte, pSize)
-	_, err = t.pLog.ReadAt(p[:], int64(pOff+szSize))
-	if err != nil {
-		return nil, err
+	if pSize > 0 {
+		// an empty payload is legal and takes no bytes after its size prefix
+		_, err = t.pLog.ReadAt(p[:], int64(pOff+szSize))
+		if err != nil {
+			return nil, err
+		}
 	}
 
 	_, _, err = t.pCache.Put(n, p)
